@@ -227,6 +227,17 @@ func Encodings(w Want, mode int) [][]byte {
 				}
 			}
 		}
+	case len(w.Ops) == 1 && w.Ops[0].Kind == "sreg" && (w.Op == "PUSH" || w.Op == "POP"):
+		// PUSH/POP Sreg at the mode's stack width: one-byte opcodes for ES/CS/SS/DS, 0F A0/A1/A8/A9 for FS/GS
+		enc := map[string][2][]byte{"ES": {{0x06}, {0x07}}, "CS": {{0x0E}, nil}, "SS": {{0x16}, {0x17}}, "DS": {{0x1E}, {0x1F}},
+			"FS": {{0x0F, 0xA0}, {0x0F, 0xA1}}, "GS": {{0x0F, 0xA8}, {0x0F, 0xA9}}}[w.Ops[0].Reg]
+		e := enc[0]
+		if w.Op == "POP" {
+			e = enc[1]
+		}
+		if e != nil {
+			out = append(out, e)
+		}
 	case len(w.Ops) == 1 && w.Ops[0].Kind == "reg" && (w.Op == "PUSH" || w.Op == "POP"):
 		rn, sz, _ := RegInfo(w.Ops[0].Reg)
 		if sz == 8 {
